@@ -3,23 +3,47 @@
    the pair (sign as i8, that sequence).  serde's Serializer / SeqAccess protocol itself is
    modelled, not verified: a serialized value is (declared length, element list); the input
    of deserialization is (size hint, element list) where elements that do not fit a u32 make
-   serde's own u32 visitor fail.  Definitions only. *)
+   serde's own u32 visitor fail.  Definitions only.
+   The declared-length formula, the `last_hi != 0` tests, the pairing shifts, the Sign <-> i8
+   tables and the final `from_biguint` are read from the source on every run
+   (tools/extractors/serde.py -> [serde_params]); the proofs are generic under [serde_ok]. *)
 From BigNum Require Import Base Iter.
 Open Scope Z_scope.
+
+(** Source-extracted decision points (tools/extractors/serde.py). *)
+Record serde_params := {
+  sdp_last_shift : Z;      (* serialize: `let last_hi = (last >> 32) as u32`               -> 32 *)
+  sdp_len_mul : Z;         (* serialize: `data.len() * 2 + ..`                             -> 2 *)
+  sdp_len_one : Z;         (* serialize: `.. + 1 + ..`                                     -> 1 *)
+  sdp_len_cmp : cmpop;     (* serialize: `.. + (last_hi != 0) as usize`                    -> Cne *)
+  sdp_elem_shift : Z;      (* serialize: `seq.serialize_element(&((x >> 32) as u32))`      -> 32 *)
+  sdp_emit_cmp : cmpop;    (* serialize: `if last_hi != 0 { ..element(&last_hi) }`         -> Cne *)
+  sdp_de_shift : Z;        (* visit_seq: `value |= BigDigit::from(hi) << 32`               -> 32 *)
+  sdp_ser_minus : Z;       (* Serialize for Sign: `Sign::Minus => (-1i8)`                  -> -1 *)
+  sdp_ser_nosign : Z;      (*                     `Sign::NoSign => 0i8`                    -> 0 *)
+  sdp_ser_plus : Z;        (*                     `Sign::Plus => 1i8`                      -> 1 *)
+  sdp_de_arms : list (Z * sign);  (* Deserialize for Sign: `-1 => Ok(Sign::Minus), 0 => .., 1 => .., _ => Err` *)
+  sdp_from_biguint : bool  (* Deserialize for BigInt: `Ok(BigInt::from_biguint(sign, data))` -> true *)
+}.
+
+(** `(d >> k) as u32` of a u64 *)
+Definition shr32 (k d : Z) : Z := (d / 2 ^ k) mod W32.
 
 (** Serialize for BigUint: `if let Some((&last, data)) = self.data.split_last()`:
     declared length `data.len() * 2 + 1 + (last_hi != 0) as usize`, then lo/hi of every
     lower digit, last_lo, and last_hi only if non-zero.  Zero: the empty `&[u32]`, whose
     slice impl declares Some(0). *)
-Definition ser_biguint (u : list Z) : Z * list Z :=
+Definition ser_biguint (p : serde_params) (u : list Z) : Z * list Z :=
   match last_opt u with
   | Some last =>
       let data := removelast u in
       let last_lo := lo32 last in
-      let last_hi := hi32 last in
-      let u32_len := Z.of_nat (length data) * 2 + 1 + (if last_hi =? 0 then 0 else 1) in
+      let last_hi := shr32 (sdp_last_shift p) last in
+      let u32_len := Z.of_nat (length data) * sdp_len_mul p + sdp_len_one p
+                     + (if cmp_eval (sdp_len_cmp p) last_hi 0 then 1 else 0) in
       (u32_len,
-       flat_map (fun x => [lo32 x; hi32 x]) data ++ last_lo :: (if last_hi =? 0 then [] else [last_hi]))
+       flat_map (fun x => [lo32 x; shr32 (sdp_elem_shift p) x]) data
+       ++ last_lo :: (if cmp_eval (sdp_emit_cmp p) last_hi 0 then [last_hi] else []))
   | None => (0, [])
   end.
 
@@ -29,38 +53,44 @@ Definition cautious (hint : option Z) : Z :=
 
 (** U32Visitor::visit_seq: `while let Some(lo) = next { if let Some(hi) = next { push(lo | hi << 32) }
     else { push(lo); break } }` *)
-Fixpoint de_pairs (w : list Z) : list Z :=
+Fixpoint de_pairs (p : serde_params) (w : list Z) : list Z :=
   match w with
   | [] => []
   | [lo] => [lo]
-  | lo :: hi :: r => Z.lor lo ((hi * 2 ^ 32) mod B) :: de_pairs r
+  | lo :: hi :: r => Z.lor lo ((hi * 2 ^ sdp_de_shift p) mod B) :: de_pairs p r
   end.
 
 (** `biguint_from_vec(data)` = normalized *)
-Definition de_biguint (w : list Z) : list Z := strip (de_pairs w).
+Definition de_biguint (p : serde_params) (w : list Z) : list Z := strip (de_pairs p w).
 
 (** the same with the size hint made explicit: (capacity requested, value) *)
-Definition de_biguint_hinted (hint : option Z) (w : list Z) : Z * list Z :=
-  ((cautious hint + 1) / 2, de_biguint w).
+Definition de_biguint_hinted (p : serde_params) (hint : option Z) (w : list Z) : Z * list Z :=
+  ((cautious hint + 1) / 2, de_biguint p w).
 
 (** element tokens that are not u32 values are rejected (by serde's primitive visitor) *)
 Definition is_u32 (x : Z) : bool := (0 <=? x) && (x <? W32).
-Definition de_biguint_tokens (hint : option Z) (w : list Z) : option (list Z) :=
-  if forallb is_u32 w then Some (snd (de_biguint_hinted hint w)) else None.
+Definition de_biguint_tokens (p : serde_params) (hint : option Z) (w : list Z) : option (list Z) :=
+  if forallb is_u32 w then Some (snd (de_biguint_hinted p hint w)) else None.
 
 (** Sign <-> i8 *)
-Definition ser_sign (s : sign) : Z := match s with Minus => -1 | NoSign => 0 | Plus => 1 end.
-Definition de_sign (v : Z) : option sign :=
-  if v =? -1 then Some Minus else if v =? 0 then Some NoSign else if v =? 1 then Some Plus
-  else None.
+Definition ser_sign (p : serde_params) (s : sign) : Z :=
+  match s with Minus => sdp_ser_minus p | NoSign => sdp_ser_nosign p | Plus => sdp_ser_plus p end.
+(** the `match sign { k => Ok(..), .., _ => Err(..) }` arms, first match wins *)
+Fixpoint match_arms (arms : list (Z * sign)) (v : Z) : option sign :=
+  match arms with
+  | [] => None
+  | (k, s) :: r => if v =? k then Some s else match_arms r v
+  end.
+Definition de_sign (p : serde_params) (v : Z) : option sign := match_arms (sdp_de_arms p) v.
 
 (** BigInt = the 2-tuple (sign, magnitude); deserialization goes through from_biguint *)
-Definition ser_bigint (x : bigint) : Z * (Z * list Z) := (ser_sign (sg x), ser_biguint (mag x)).
-Definition de_bigint (v : Z) (hint : option Z) (w : list Z) : option bigint :=
-  match de_sign v with
+Definition ser_bigint (p : serde_params) (x : bigint) : Z * (Z * list Z) :=
+  (ser_sign p (sg x), ser_biguint p (mag x)).
+Definition de_bigint (p : serde_params) (v : Z) (hint : option Z) (w : list Z) : option bigint :=
+  match de_sign p v with
   | None => None
-  | Some s => match de_biguint_tokens hint w with
+  | Some s => match de_biguint_tokens p hint w with
               | None => None
-              | Some m => Some (from_biguint s m)
+              | Some m => Some (if sdp_from_biguint p then from_biguint s m else mkint s m)
               end
   end.
